@@ -369,8 +369,9 @@ Proof. exact c15_tables_nontrivial. Qed.
      RefIds/TriQuadExact) are C03's / C13's theorems and certificates, not re-proved here;
    - purity: the store model's account of Python/numpy/jax (`x += e` is in place exactly for writable ndarrays; jit traces on fresh
      immutable values; np.* functions and arithmetic are free of side effects) is TRUSTED, and checked on the implementation by the
-     purity stream (numpy / read-only numpy / jax state, step-doubling driver); aliasing between DIFFERENT argument arrays
-     (predict(U, U, A, dt)) is covered by the theorem (addresses may repeat) but not by a stream;
+     purity stream (numpy / read-only numpy / jax state, step-doubling driver); the store tie compares the model's prediction
+     (objects written, identity of returned objects; also with one object passed for two parameters) with CPython on the raw and the
+     handed-out function objects -- a sample, not a proof about the interpreter;
    - linearity at binary64 holds exactly only for power-of-two factors (checked bit-for-bit by the scale streams), otherwise to rounding;
      for nonlinear materials the step is of course not linear (theorems C15_run_* need the quadratic strain energy);
    - anything in binary64 (the drift observed there is bounded by the solver tolerance, not zero). *)
